@@ -78,3 +78,10 @@ mod utils;
 #[cfg(feature = "ram_bundle")]
 pub mod ram_bundle;
 pub mod vlq;
+
+/// Verification hooks: compiled only with `--cfg sourcemap_verif`, never part of the public API.
+#[cfg(sourcemap_verif)]
+#[doc(hidden)]
+pub mod verif {
+    pub use crate::decoder::{strip_junk_header, StripHeaderReader};
+}
